@@ -30,11 +30,31 @@ mutual
     | _ => false
 end
 
-/-- a COSE key in the plain shape the model's `validKey` stands for: integer labels, scalar values -/
+/-- COSE algorithm identifiers coset 0.3.8 knows (`iana::Algorithm::from_i64`); unregistered ones are accepted
+only in the private-use range below -65536 -/
+def cosetAlgs : List Int :=
+  [-65535, -260, -259, -258, -257, -47, -46, -45, -44, -43, -42, -41, -40, -39, -38, -37, -36, -35, -34, -33, -32, -31, -30, -29, -28, -27,
+   -26, -25, -18, -17, -16, -15, -14, -13, -12, -11, -10, -8, -7, -6, -5, -4, -3, 0, 1, 2, 3, 4, 5, 6, 7, 10, 11, 12, 13, 14, 15, 24, 25, 26, 30, 31, 32, 33, 34]
+
+def itemInt? : Cbor.Item → Option Int
+  | .uint n => some (Int.ofNat n)
+  | .nint n => some (-1 - Int.ofNat n)
+  | _ => none
+
+/-- a COSE key in the plain shape the model's `validKey` stands for: distinct integer labels, scalar values, and
+the common parameters as `CoseKey::from_cbor_value` requires them (key type 1 a registered key type, key id 2
+and base IV 5 byte strings, algorithm 3 registered or private-use; key operations 4 are outside the region) -/
 def plainKey (x : Cbor.Item) : Bool :=
   match x with
   | .map kvs => kvs.all (fun kv => (match kv.1 with | .uint _ => true | .nint _ => true | _ => false)
-      && (match kv.2 with | .uint _ => true | .nint _ => true | .bytes _ => true | _ => false))
+      && (match kv.2 with | .uint _ => true | .nint _ => true | .bytes _ => true | _ => false)
+      && (match kv.1 with
+          | .uint 1 => (match kv.2 with | .uint t => 1 ≤ t && t ≤ 6 | _ => false)
+          | .uint 2 => (match kv.2 with | .bytes _ => true | _ => false)
+          | .uint 3 => (match itemInt? kv.2 with | some a => cosetAlgs.contains a || a < -65536 | none => false)
+          | .uint 4 => false
+          | .uint 5 => (match kv.2 with | .bytes _ => true | _ => false)
+          | _ => true))
       && (kvs.map (·.1)).eraseDups.length == kvs.length
   | _ => false
 
